@@ -110,6 +110,7 @@ theorem run_eq_statsOf {F : Nat} (hF : F ≠ 0) (cs : List (Call α)) (hne : cs 
     rw [run_some hF cs hcs' _ (statsOf_dim hc.2.2) (statsOf_wf hc.2.2), List.flatMap_cons,
       acc_additive _ _ hc.2.2 hflat]
 
+omit [CommSemiring α] in
 theorem flatMap_vec (vs : List (List α)) : (vs.map Call.vec).flatMap Call.vectors = vs := by
   induction vs with
   | nil => rfl
@@ -155,16 +156,16 @@ theorem dim_mismatch_accumulate (s : Stats α) (c : Call α) (h : c.dim ≠ s.di
     by_cases hv : v.isEmpty <;> simp [accCall, accVec, initOrCheck, this, hv]
   | tens F vs =>
     have : ¬ s.dim = F := fun e => h e.symm
-    by_cases hv : (F = 0 ∨ vs.isEmpty) <;> simp [accCall, accTensor, initOrCheck, this, hv]
+    by_cases hv : (F = 0 ∨ vs.isEmpty) <;> simp [accCall, accTensor, initOrCheck, this]
 
 end accumulate
 
 /-! ## apply -/
 
 section applyField
-variable {α : Type} [Field α] [DecidableEq α]
+variable {α : Type} [Field α]
 
-theorem activeStats_some (s : Stats α) (hc : s.cnt ≠ 0) : activeStats (some s) = some s := by
+theorem activeStats_some [DecidableEq α] (s : Stats α) (hc : s.cnt ≠ 0) : activeStats (some s) = some s := by
   simp [activeStats, hc]
 
 theorem affine_get {x sc mu : List α} {i : Nat} {xi ci mi : α} (hx : x[i]? = some xi)
@@ -187,7 +188,7 @@ theorem means_get {s : Stats α} {i : Nat} {si : α} (h : s.sum[i]? = some si) :
     (means s)[i]? = some (si / s.cnt) := by
   simp [means, h]
 
-theorem varOf_get {cnt : α} {sq mu : List α} {i : Nat} {qi mi : α} (hq : sq[i]? = some qi)
+theorem varOf_get (cnt : α) {sq mu : List α} {i : Nat} {qi mi : α} (hq : sq[i]? = some qi)
     (hm : mu[i]? = some mi) : (varOf cnt sq mu)[i]? = some (qi / cnt - mi ^ 2) := by
   unfold varOf
   rw [getElem?_zipWith_some hq hm, pow_two]
@@ -210,16 +211,16 @@ theorem scaleVec_get (sqrt : α → α) (cz : α → Bool) (nv : Bool) (s : Stat
   unfold scaleVec specScale
   cases nv with
   | false => simpa using ones_get hi
-  | true => simpa using scales_get sqrt cz (varOf_get hqi (means_get hsi))
+  | true => simpa using scales_get sqrt cz (varOf_get _ hqi (means_get hsi))
 
-theorem applyVec_global (sqrt : α → α) (cz : α → Bool) (nv : Bool) (s : Stats α) (hc : s.cnt ≠ 0)
+theorem applyVec_global [DecidableEq α] (sqrt : α → α) (cz : α → Bool) (nv : Bool) (s : Stats α) (hc : s.cnt ≠ 0)
     (x : List α) (hx : x.length = s.dim) :
     applyVec sqrt cz nv (some s) x = .ok (affine x (scaleVec sqrt cz nv s x.length) (means s)) := by
   simp only [applyVec, dimCheck, hx, if_true, activeStats_some s hc, scaleVec]
 
 /-- **apply, with statistics (vector path).**  `(apply s x)_i = (x_i − μ_i)·scale_i`, `μ = sum/count`,
 `σ² = sumsq/count − μ²`, `scale = 1/√σ²` (or `1/√1` where `isclose(σ², 0)`; or `1` without `norm_var`). -/
-theorem apply_formula (sqrt : α → α) (cz : α → Bool) (nv : Bool) (s : Stats α) (hc : s.cnt ≠ 0)
+theorem apply_formula [DecidableEq α] (sqrt : α → α) (cz : α → Bool) (nv : Bool) (s : Stats α) (hc : s.cnt ≠ 0)
     (x : List α) (hx : x.length = s.dim) (i : Nat) (xi si qi : α) (hxi : x[i]? = some xi)
     (hsi : s.sum[i]? = some si) (hqi : s.sq[i]? = some qi) :
     ∃ y, applyVec sqrt cz nv (some s) x = .ok y ∧
@@ -233,11 +234,11 @@ theorem apply_formula (sqrt : α → α) (cz : α → Bool) (nv : Bool) (s : Sta
 
 /-- **apply, with statistics (tensor path, any axis).**  Every feature vector of the tensor is
 transformed exactly as the vector path transforms it, so `apply_formula` holds entry-wise. -/
-theorem apply_tensor_eq_vectors (sqrt : α → α) (cz : α → Bool) (nv : Bool) (s : Stats α)
+theorem apply_tensor_eq_vectors [DecidableEq α] (sqrt : α → α) (cz : α → Bool) (nv : Bool) (s : Stats α)
     (hc : s.cnt ≠ 0) (single : Bool) (F : Nat) (hd : s.dim = F) (vs : List (List α))
     (hvs : ∀ v ∈ vs, v.length = F) :
     ∃ ys, applyTens sqrt cz nv (some s) single F vs = .ok ys ∧ ys.length = vs.length ∧
-      ∀ k v, vs[k]? = some v → ∃ y, applyVec sqrt cz nv (some s) v = .ok y ∧ ys[k]? = some y := by
+      ∀ (k : Nat) (v : List α), vs[k]? = some v → ∃ y, applyVec sqrt cz nv (some s) v = .ok y ∧ ys[k]? = some y := by
   refine ⟨vs.map fun v => affine v (scaleVec sqrt cz nv s F) (means s), ?_, by simp, ?_⟩
   · simp only [applyTens, dimCheck, hd, if_true, activeStats_some s hc, scaleVec]
   · intro k v hk
@@ -246,20 +247,20 @@ theorem apply_tensor_eq_vectors (sqrt : α → α) (cz : α → Bool) (nv : Bool
     simp [hk, hv]
 
 /-- a tensor / vector whose feature dimension differs from the statistics' is rejected -/
-theorem dim_mismatch_apply (sqrt : α → α) (cz : α → Bool) (nv : Bool) (s : Stats α)
+theorem dim_mismatch_apply [DecidableEq α] (sqrt : α → α) (cz : α → Bool) (nv : Bool) (s : Stats α)
     (x : List α) (h : x.length ≠ s.dim) :
     applyVec sqrt cz nv (some s) x = .error .ValueError := by
   have : ¬ s.dim = x.length := fun e => h e.symm
   simp [applyVec, dimCheck, this]
 
-theorem dim_mismatch_apply_tensor (sqrt : α → α) (cz : α → Bool) (nv : Bool) (s : Stats α)
+theorem dim_mismatch_apply_tensor [DecidableEq α] (sqrt : α → α) (cz : α → Bool) (nv : Bool) (s : Stats α)
     (single : Bool) (F : Nat) (vs : List (List α)) (h : F ≠ s.dim) :
     applyTens sqrt cz nv (some s) single F vs = .error .ValueError := by
   have : ¬ s.dim = F := fun e => h e.symm
   simp [applyTens, dimCheck, this]
 
 /-- histories over the same data give the same transform (vector and tensor path) -/
-theorem same_data_same_transform {F : Nat} (hF : F ≠ 0) (cs₁ cs₂ : List (Call α))
+theorem same_data_same_transform [DecidableEq α] {F : Nat} (hF : F ≠ 0) (cs₁ cs₂ : List (Call α))
     (hne₁ : cs₁ ≠ []) (hne₂ : cs₂ ≠ []) (h₁ : ∀ c ∈ cs₁, CallOK F c) (h₂ : ∀ c ∈ cs₂, CallOK F c)
     (hp : (cs₁.flatMap Call.vectors).Perm (cs₂.flatMap Call.vectors))
     (st₁ st₂ : Option (Stats α)) (hr₁ : run none cs₁ = .ok st₁) (hr₂ : run none cs₂ = .ok st₂)
@@ -306,10 +307,9 @@ theorem col_map_affine {F i : Nat} (hi : i < F) (vs : List (List α)) (hvs : ∀
   have hlt : i < v.length := by rw [hvs v hv]; exact hi
   have hx : v[i]? = some (v.getD i 0) := by simp [List.getD, List.getElem?_eq_getElem hlt]
   simp only [Function.comp, List.getD, affine_get hx hs hm, Option.getD_some]
-  simp [List.getD, List.getElem?_eq_getElem hlt]
 
 /-- what the local path computes, in closed form -/
-theorem applyTens_local (sqrt : α → α) (cz : α → Bool) (nv : Bool) (F : Nat) (vs : List (List α)) :
+theorem applyTens_local [DecidableEq α] (sqrt : α → α) (cz : α → Bool) (nv : Bool) (F : Nat) (vs : List (List α)) :
     applyTens sqrt cz nv none false F vs =
       .ok (vs.map fun v => affine v
         (if nv then scales sqrt cz (varOf (vs.length : α) (colSum F (vs.map vsq))
@@ -319,7 +319,7 @@ theorem applyTens_local (sqrt : α → α) (cz : α → Bool) (nv : Bool) (F : N
 
 /-- **Local standardisation has mean 0** in every coefficient (sum over the other axes is 0), with or
 without `norm_var`; `(N : α) ≠ 0` holds in characteristic 0 for the non-empty tensors the code accepts. -/
-theorem local_mean_zero (sqrt : α → α) (cz : α → Bool) (nv : Bool) {F : Nat} (vs : List (List α))
+theorem local_mean_zero [DecidableEq α] (sqrt : α → α) (cz : α → Bool) (nv : Bool) {F : Nat} (vs : List (List α))
     (hvs : ∀ v ∈ vs, v.length = F) (hN : (vs.length : α) ≠ 0) (ys : List (List α))
     (h : applyTens sqrt cz nv none false F vs = .ok ys) (i : Nat) (hi : i < F) :
     (colSum F ys)[i]? = some 0 := by
@@ -334,7 +334,7 @@ theorem local_mean_zero (sqrt : α → α) (cz : α → Bool) (nv : Bool) {F : N
   obtain ⟨c, hci⟩ : ∃ c, sc[i]? = some c := by
     cases nv with
     | false => exact ⟨1, by simpa [hsc] using ones_get hi⟩
-    | true => exact ⟨_, by simpa [hsc] using scales_get sqrt cz (varOf_get hq hmui)⟩
+    | true => exact ⟨_, by simpa [hsc] using scales_get sqrt cz (varOf_get _ hq hmui)⟩
   have hmul : mu.length = F := by simp [hmu, colSum_length vs hvs]
   have hscl : sc.length = F := by
     cases nv with
@@ -353,7 +353,7 @@ theorem local_mean_zero (sqrt : α → α) (cz : α → Bool) (nv : Bool) {F : N
 /-- **Local standardisation has variance 1** in coefficient `i` (`E[y²] = 1`, the mean being 0 by
 `local_mean_zero`) whenever `sqrt` really is a square root of that coefficient's variance
 `σ² = E[x²] − E[x]²`, `σ² ≠ 0`, and the `isclose(σ², 0)` replacement does not fire. -/
-theorem local_var_one (sqrt : α → α) (cz : α → Bool) {F : Nat} (vs : List (List α))
+theorem local_var_one [DecidableEq α] (sqrt : α → α) (cz : α → Bool) {F : Nat} (vs : List (List α))
     (hvs : ∀ v ∈ vs, v.length = F) (hN : (vs.length : α) ≠ 0) (ys : List (List α))
     (h : applyTens sqrt cz true none false F vs = .ok ys) (i : Nat) (hi : i < F)
     (var : α)
@@ -361,7 +361,7 @@ theorem local_var_one (sqrt : α → α) (cz : α → Bool) {F : Nat} (vs : List
       - ((col i vs).sum / (vs.length : α)) ^ 2)
     (hcz : cz var = false) (hsq : sqrt var * sqrt var = var) (hv0 : var ≠ 0) :
     ∃ Q, (colSum F (ys.map vsq))[i]? = some Q ∧ Q / (vs.length : α) = 1 := by
-  rw [applyTens_local] at h
+  rw [applyTens_local, if_pos rfl] at h
   cases h
   set mu := (colSum F vs).map (· / (vs.length : α)) with hmu
   set sc := scales sqrt cz (varOf (vs.length : α) (colSum F (vs.map vsq)) mu) with hsc
@@ -370,7 +370,7 @@ theorem local_var_one (sqrt : α → α) (cz : α → Bool) {F : Nat} (vs : List
   have hq := colSum_get hi (vs.map vsq) (map_vsq_length hvs)
   rw [col_vsq] at hq
   have hci : sc[i]? = some (1 / sqrt var) := by
-    have := scales_get sqrt cz (varOf_get hq hmui)
+    have := scales_get sqrt cz (varOf_get (vs.length : α) hq hmui)
     rw [← hvar, hcz] at this
     simpa [hsc] using this
   have hmul : mu.length = F := by simp [hmu, colSum_length vs hvs]
@@ -380,10 +380,9 @@ theorem local_var_one (sqrt : α → α) (cz : α → Bool) {F : Nat} (vs : List
     intro w hw
     obtain ⟨v, hv, rfl⟩ := List.mem_map.1 hw
     exact affine_length (hvs v hv) hscl hmul
-  simp only [if_true]
   refine ⟨_, colSum_get hi _ (map_vsq_length hys), ?_⟩
   rw [col_vsq, col_map_affine hi vs hvs hci hmui, List.map_map]
-  simp only [Function.comp]
+  show (List.map (fun x => (x - _) * _ * ((x - _) * _)) (col i vs)).sum / _ = 1
   rw [sum_map_affine_sq, col_length]
   have hs0 : sqrt var ≠ 0 := by
     intro h0; rw [h0, mul_zero] at hsq; exact hv0 hsq.symm
@@ -391,8 +390,9 @@ theorem local_var_one (sqrt : α → α) (cz : α → Bool) {F : Nat} (vs : List
       = (vs.length : α) * (var + ((col i vs).sum / (vs.length : α)) ^ 2) := by
     rw [hvar]; field_simp; ring
   rw [key]
-  field_simp
+  generalize sqrt var = s at hsq hs0 ⊢
   rw [← hsq]
+  field_simp
   ring
 
 end applyField
@@ -428,7 +428,7 @@ theorem local_mean_zero_real (cz : ℝ → Bool) (nv : Bool) {F : Nat} (vs : Lis
 theorem specScale_real (cz : ℝ → Bool) (cnt si qi : ℝ) :
     specScale Real.sqrt cz true cnt si qi =
       if cz (qi / cnt - (si / cnt) ^ 2) then 1 else 1 / Real.sqrt (qi / cnt - (si / cnt) ^ 2) := by
-  unfold specScale
+  simp only [specScale, ↓reduceIte]
   split_ifs <;> simp
 
 /-! ## the public entry points: dtype tag, purity, axis handling -/
@@ -436,45 +436,34 @@ theorem specScale_real (cz : ℝ → Bool) (cnt si qi : ℝ) :
 section api
 variable {α : Type} [Field α] [DecidableEq α]
 
+/-- shape of every successful `apply` result -/
+theorem apply_ok_form (sqrt : α → α) (cz : α → Bool) (nv : Bool) (st : Option (Stats α))
+    (t : Tensor α) (axis : Int) (ip : Bool) (o : ApplyOut α)
+    (h : apply sqrt cz nv st t axis ip = .ok o) :
+    o.dtype = .f64 ∧ o.shape = t.shape ∧
+      o.inputAfter = if ip && t.dtype == .f64 then o.data else t.data := by
+  unfold apply at h
+  repeat' split at h
+  all_goals first
+    | (cases h; done)
+    | (cases h; refine ⟨rfl, rfl, ?_⟩; simp [*])
+
 /-- the result is always tagged float64 and keeps the input's shape -/
 theorem result_dtype_f64 (sqrt : α → α) (cz : α → Bool) (nv : Bool) (st : Option (Stats α))
     (t : Tensor α) (axis : Int) (ip : Bool) (o : ApplyOut α)
-    (h : apply sqrt cz nv st t axis ip = .ok o) : o.dtype = .f64 ∧ o.shape = t.shape := by
-  unfold apply at h
-  split at h
-  · cases h
-  · split at h
-    · split at h
-      · cases h
-      · split at h
-        · cases h
-        · split at h
-          · cases h
-          · cases h; exact ⟨rfl, rfl⟩
-    · split at h
-      · cases h
-      · cases h; exact ⟨rfl, rfl⟩
+    (h : apply sqrt cz nv st t axis ip = .ok o) : o.dtype = .f64 ∧ o.shape = t.shape :=
+  let ⟨h1, h2, _⟩ := apply_ok_form sqrt cz nv st t axis ip o h
+  ⟨h1, h2⟩
 
 /-- without `in_place` the caller's array is left as it was (for any dtype); with `in_place` it is
-overwritten only when it already is float64 -/
+overwritten (by the result) only when it already is float64 -/
 theorem not_in_place_pure (sqrt : α → α) (cz : α → Bool) (nv : Bool) (st : Option (Stats α))
     (t : Tensor α) (axis : Int) (o : ApplyOut α)
     (h : apply sqrt cz nv st t axis false = .ok o) : o.inputAfter = t.data := by
-  unfold apply at h
-  split at h
-  · cases h
-  · split at h
-    · split at h
-      · cases h
-      · split at h
-        · cases h
-        · split at h
-          · cases h
-          · cases h; simp
-    · split at h
-      · cases h
-      · cases h; simp
+  have := (apply_ok_form sqrt cz nv st t axis false o h).2.2
+  simpa using this
 
+omit [DecidableEq α] in
 /-- the n-D entry point is the list-of-vectors model applied to `vectorsAlong` of the array -/
 theorem accumulate_tensor_eq (st : Option (Stats α)) (t : Tensor α) (axis : Int)
     (hrank : t.shape.length > 1) (hg : emptyGuard t = .ok ()) (w : View α)
